@@ -91,7 +91,7 @@ theorem newFbClient_flags (s : Screen) (w h bpp : Int) (tok : Nat) (c : Client) 
     (c.base.isOpen = true → c.useNewFBSize = true → (newFbClient s w h bpp tok c).pending = true) := by
   unfold newFbClient
   cases ho : c.base.isOpen <;> simp [ho]
-  exact ⟨fun h => Or.inr h, fun h => Or.inl h⟩
+  exact ⟨fun h => Or.inr h, fun h => Or.inl (Or.inl h)⟩
 
 theorem pendF_stepClient (id : Nat) (tw th : Int) (st : State) (op : Op) (c : Client)
     (hid : c.id = id) (hF : PendF tw th c)
